@@ -138,6 +138,10 @@ func c20text(g *zsim.Stream) string {
 		// around both ends of the range: not names
 		return fmt.Sprintf(pick(g, "Level(%d)", "LEVEL(%d)", "level(%d)"), g.Draw(14)-4)
 	}
+	if g.Chance(3) {
+		// letters that only an upper-case fold maps onto ASCII: no spelling of a name
+		return pick(g, "ınfo", "ıNFO", "panıc", "PANıC", "dpanıc", "DPANıC", "ſatal")
+	}
 	return pick(g, "LEVEL(3)", "1", "true", "null", "{}", "İnfo", "wArNiNg ")
 }
 
